@@ -211,8 +211,8 @@ func (p *Prog) RVAnalyse() []RVFinding {
 		operand ssa.Value
 	}
 	var srcs []src
-	taintedRet := map[*ssa.Function]string{}      // function returns a slice whose elements may be nil Types / invalid Values
-	taintedPrm := map[*ssa.Parameter]string{}     // parameter is such a slice
+	taintedRet := map[*ssa.Function]string{}  // function returns a slice whose elements may be nil Types / invalid Values
+	taintedPrm := map[*ssa.Parameter]string{} // parameter is such a slice
 	for _, fn := range p.Funcs {
 		for _, b := range fn.Blocks {
 			for _, in := range b.Instrs {
